@@ -52,12 +52,12 @@ def gen_scenarios(rng, prog, style, thorough=False):
   r = rng.random()
   init_mut = {'deny': 'intermediates'} if r < 0.7 else (True if r < 0.85 else S.gen_filter(rng))
   scs.append({'kind': 'init', 'prog': prog, 'style': style, 'mutable': init_mut, 'x': x, 'rngs': rng.random() < 0.93,
-              'capture': style != 'core' and rng.random() < 0.12, 'ncalls': rng.choice([1, 1, 2])})
+              'capture': style != 'core' and rng.random() < 0.12 and rng.choice([True, 'fn']), 'ncalls': rng.choice([1, 1, 2])})
   n_apply = 3 if not thorough else 6
   for _ in range(n_apply):
     scs.append({'kind': 'apply', 'prog': prog, 'style': style, 'mutable': S.gen_filter(rng), 'x': rng.randrange(-3, 4),
                 'rngs': rng.random() < 0.5, 'frozen': rng.random() < 0.4,
-                'capture': style != 'core' and rng.random() < 0.1, 'ncalls': rng.choice([1, 1, 2, 3])})
+                'capture': style != 'core' and rng.random() < 0.1 and rng.choice([True, 'fn']), 'ncalls': rng.choice([1, 1, 2, 3])})
   return scs
 
 
@@ -122,6 +122,7 @@ def check_observers(ctx, base):
   full = S.run_scenario(R, dict(base))
   if full['peak'] >= S.LIMIT:
     return
+  has_nested = any(st['op'] == 'nested' for st in S.walk(prog))
   if full['result'][0] != 'ok':
     # an observer must not be what makes the call raise an immutable-write error: the same program without
     # its observers contains the same real writes, so if that one returns, the error came from sow/perturb
@@ -136,12 +137,18 @@ def check_observers(ctx, base):
     return
   # (1) capture_intermediates on: same output
   if 'intermediates' not in S.cols_of(prog, ('param', 'variable', 'get', 'put', 'perturb')):
-    cap = S.run_scenario(R, dict(base, capture=True))
-    ctx.case({'kind': 'observer-capture', 'case': S.public(base)})
-    ctx.count('observer_pairs', 'capture')
-    if cap['peak'] < S.LIMIT and (cap['result'][0] != 'ok' or cap['result'][1] != full['result'][1]):
-      ctx.violation('observer-changes-output:capture', f"capture_intermediates=True changed the outcome: {full['result'][:2]} vs {cap['result'][:2]}", S.public(base))
-      return
+    for capv in ((True, 'fn') if has_nested else (True,)):
+      cap = S.run_scenario(R, dict(base, capture=capv))
+      ctx.case({'kind': 'observer-capture', 'case': S.public(base)})
+      ctx.count('observer_pairs', 'capture' + ('+nested' if has_nested else ''))
+      if cap['peak'] >= S.LIMIT:
+        continue
+      if has_nested and cap.get('nested') != full.get('nested'):
+        ctx.violation('nested-apply-depends-on-context', f"a nested apply(..., capture_intermediates=False) returned {cap.get('nested')} under an outer capture_intermediates={capv!r} and {full.get('nested')} without", S.public(base))
+        return
+      if cap['result'][0] != 'ok' or cap['result'][1] != full['result'][1]:
+        ctx.violation('observer-changes-output:capture', f"capture_intermediates={capv!r} changed the outcome: {full['result'][:2]} vs {cap['result'][:2]}", S.public(base))
+        return
   # (2) sow / inert perturb erased: same output
   if has_obs and S.obs_safe(prog):
     per = S.cols_of(prog, ('perturb',))
@@ -279,6 +286,13 @@ def run(ctx):
   restore = [S.gen_restore_prog(ctx.rng) for _ in range(50 if not thorough else 600)]
   ctx.count('streams', 'restore', len(restore))
   run_programs(ctx, drv, conv, restore)
+  # nested applies inside a module body, under every outer capture setting
+  nested = [S.gen_nested_prog(ctx.rng) for _ in range(60 if not thorough else 700)]
+  ctx.count('streams', 'nested', len(nested))
+  run_programs(ctx, drv, conv, nested)
+  for prog in nested:
+    for style in S.styles_for(prog):
+      observer_pairs(ctx, ctx.rng, prog, style, None)
   # leaked scope objects
   lcases = []
   for i in range(120 if not thorough else 1500):
@@ -292,7 +306,7 @@ def run(ctx):
                    'x': ctx.rng.randrange(-2, 3), 'rngs': ctx.rng.random() < 0.6, 'which': ctx.rng.choice(['root', 'child', 'child']),
                    'pick': ctx.rng.randrange(100), 'leak': True, '_rng': ctx.rng})
   leak_suite(ctx, drv, conv, lcases)
-  n = 800 if not thorough else 9000
+  n = 700 if not thorough else 9000
   done = 0
   sample_src = None
   while done < n:
